@@ -8,8 +8,12 @@
    (`c.into().into_inner()`, `C::from(raw)`): the conversion colour <-> raw is property C12's subject.
    Points are pairs (x, y) of i32 values.  Raw load / the raw iterator come from Model/Rawdata.v. *)
 From EG Require Import Base.Prelude Model.Rawdata.
+From EG Require Model.Geometry Model.Target.   (* qualified: Rectangle::points, the colour stream of fill_contiguous *)
 
 Record fbcfg := FbCfg { fb_t : rawty; fb_alt : order; fb_w : Z; fb_h : Z }.
+
+Section WithUsize.
+Context {U : Usize}.   (* the target's usize, see Model/Rawdata.v *)
 
 (* framebuffer.rs:32-34  buffer_size_bpp = (width * bpp + 7) / 8 * height *)
 Definition buffer_size_bpp (width height bpp : Z) : Z := (width * bpp + 7) / 8 * height.
@@ -55,6 +59,28 @@ Definition fb_set_pixel (c : fbcfg) (data : list Z) (p : Z * Z) (v : Z) : list Z
 (* framebuffer.rs:186-197 etc.  draw_iter: for Pixel(p, c) in pixels { self.set_pixel(p, c) } *)
 Definition fb_draw_iter (c : fbcfg) (data : list Z) (pixels : list ((Z * Z) * Z)) : list Z :=
   fold_left (fun d pc => fb_set_pixel c d (fst pc) (snd pc)) pixels data.
+
+(* framebuffer.rs:289-295  OriginDimensions::size = Size::new(WIDTH as u32, HEIGHT as u32);
+   Dimensions::bounding_box = Rectangle::new(Point::zero(), size)  (core/src/geometry/mod.rs) *)
+Definition fb_bounding_box (c : fbcfg) : Geometry.rect :=
+  Geometry.R (Geometry.P 0 0) (Geometry.S (fb_w c) (fb_h c)).
+
+(* Pixel(pos, color) items as (x, y, colour) *)
+Definition to_writes (l : list (Geometry.point * Z)) : list ((Z * Z) * Z) :=
+  map (fun pc => ((Geometry.px (fst pc), Geometry.py (fst pc)), snd pc)) l.
+
+(* The three impls `DrawTarget for Framebuffer` define ONLY draw_iter (checked on the source on every run by
+   translate/gen_fb.py -> Gen/FbShape.v), so the other methods are the trait defaults of
+   core/src/draw_target/mod.rs:388-424 on top of Framebuffer's draw_iter:
+     fill_contiguous(area, colors) = self.draw_iter(area.points().zip(colors).map(|(pos, color)| Pixel(pos, color)))
+     fill_solid(area, color)       = self.fill_contiguous(area, core::iter::repeat(color))
+     clear(color)                  = self.fill_solid(&self.bounding_box(), color) *)
+Definition fb_fill_contiguous (c : fbcfg) (data : list Z) (area : Geometry.rect) (colors : Target.stream) : list Z :=
+  fb_draw_iter c data (to_writes (Target.szip (Geometry.points area) colors)).
+Definition fb_fill_solid (c : fbcfg) (data : list Z) (area : Geometry.rect) (v : Z) : list Z :=
+  fb_fill_contiguous c data area (Target.Rep v).
+Definition fb_clear (c : fbcfg) (data : list Z) (v : Z) : list Z :=
+  fb_fill_solid c data (fb_bounding_box c) v.
 
 (* ---- image_raw.rs ---------------------------------------------------------------------------- *)
 Record image := Img { img_t : rawty; img_alt : order; img_data : list Z; img_w : Z; img_h : Z }.
@@ -128,3 +154,5 @@ Definition fb_pixel (c : fbcfg) (data : list Z) (p : Z * Z) : pixres :=
   | Some im => Pix (image_pixel im p)
   | None => Panic
   end.
+
+End WithUsize.
